@@ -28,7 +28,8 @@ RULE = ('Generated sessions (3-6 symbols with hash-diverse names, dense markets 
         " Part `reuse` (in-process): a fresh run against a run on a data-handler object that already served another session, with one symbol's file starting inside the session and the asset joining the universe shortly before its first bar; and sessions that build their own handler from the current directory after a backtest was run from another directory. Alpha kinds also include rotating weight vectors and a model reading the data source's range query."
         " Round-10 reach: a third of the markets quote unrounded doubles (seventeen significant digits), half of them below 1."
         " Round-11 reach: lookback lists are objects of the configuration, shared by every run of it."
-        " Round-12 reach (reuse part): another vendor's files for the same symbols are loaded into a source of their own while the handler is in use; in cwd_mode a failing source construction is attempted and caught first.")
+        " Round-12 reach (reuse part): another vendor's files for the same symbols are loaded into a source of their own while the handler is in use; in cwd_mode a failing source construction is attempted and caught first."
+        " Round-13 reach (reuse part): 8-12 symbols in a sixth of the cases; the source's adjust_prices flag is switched, the session's instants are asked, and it is switched back.")
 ASSUMPTIONS = [
     'hash seeds 0-3 (quick) / 0-4 plus one derived from VERIF_SEED (thorough)',
     'order identifiers (uuid4) are excluded from the comparison, as the statement says',
@@ -333,6 +334,17 @@ def run_reuse(case):
         h = q.BacktestDataHandler(None, data_sources=[ds_h])
         session_digest({'cfg': variant(cfg), 'market': mk}, data_source=ds_h, path=path, data_handler=h)
         _poke(q, ds_h, cfg, mk)
+        # the source's public adjust_prices flag is switched, a few quotes are asked, and the flag is switched back
+        flag_ = ds_h.adjust_prices
+        ds_h.adjust_prices = not flag_
+        for s_ in mk:
+            for d_ in cal.bdays(cal.date3(cfg['start']), cal.date3(cfg['end']))[:12]:
+                try:
+                    ds_h.get_bid(cal.ts(d_, 21, 0), 'EQ:' + s_)
+                    ds_h.get_ask(cal.ts(d_, 14, 30), 'EQ:' + s_)
+                except Exception:                                 # noqa
+                    pass
+        ds_h.adjust_prices = flag_
         # another vendor's files for the same symbols (other prices) are loaded into a source of their own meanwhile
         decoy = {s: market.build_rows(4242 + i, cal.date3(cfg['start']) - D.timedelta(days=9), 70) for i, s in enumerate(mk)}
         with market.csv_dir(decoy) as p_decoy:
@@ -402,6 +414,8 @@ def reuse_cases(draw):
 def cases(draw, late=False):
     d0, d1, start, end = draw(sessgen.window(min_days=8, max_days=45))
     names = draw(st.lists(st.sampled_from(SYMS), min_size=3, max_size=6, unique=True))
+    if late and draw(st.sampled_from([False] * 5 + [True])):
+        names = draw(st.lists(st.sampled_from(SYMS), min_size=8, max_size=len(SYMS), unique=True))      # a larger directory
     tie = draw(st.booleans())
     mk = draw(market.dense_markets(names, d0, (d1 - d0).days, lead=9, tie_prone=tie))
     cfg, lab = draw(sessgen.full_config(names, start, end, burn=draw(st.booleans()),
